@@ -161,8 +161,32 @@ func (vs *varStore) nonLocalVarIndex(v ast.Expression) (index int, ok bool) {
 		return int(index), true
 	}
 	if index, ok := vs.scriggoPackageVarRefs[currPkg][fullName]; ok {
-		return int(index), true
+		return int(vs.packageVarRef(currFn, fullName, index)), true
 	}
 	return 0, false
 
+}
+
+// packageVarRef returns the index with which the function fn refers to the
+// package variable with the given name, located at the given index of the
+// globals.
+//
+// A function that is not a closure refers to the globals directly. A closure,
+// instead, refers to its non-local variables through VarRefs, so the variable
+// is added to the VarRefs of fn, and of the closures that enclose it, if it is
+// not already present.
+func (vs *varStore) packageVarRef(fn *runtime.Function, name string, index int16) int16 {
+	if fn.VarRefs == nil {
+		return index
+	}
+	if ref, ok := vs.closureVars[fn][name]; ok {
+		return ref
+	}
+	if len(fn.VarRefs) == maxClosureVarsCount {
+		panic(newLimitExceededError(fn.Pos, vs.emitter.fb.path, "closure variables count exceeded %d", maxClosureVarsCount))
+	}
+	fn.VarRefs = append(fn.VarRefs, vs.packageVarRef(fn.Parent, name, index))
+	ref := int16(len(fn.VarRefs) - 1)
+	vs.setClosureVar(fn, name, ref)
+	return ref
 }
